@@ -5,7 +5,8 @@ CONSTANTS
   MaxBatch = 4
   MaxKills = 2
   MaxCycles = 3
-  DedupModes = {FALSE, TRUE}
+  DedupModes = {"none", "tags", "shrink"}
+  TagUnion = TRUE
   RecoverOnCrash = FALSE
   ListAllEntries = TRUE
   Emit = FALSE
